@@ -178,6 +178,19 @@ Theorem spec_holds_on_model : forall i,
   digest_ok i = true -> conc_ok i = true -> spec_ok i (model i) = true.
 Proof. exact model_meets_spec. Qed.
 
+(* ---- 6b. entry points ------------------------------------------------------------- *)
+(* A pointer REQUEST batch sent end to end (HTTP unary, HTTP stream init, HTTP exchange input,
+   exchange input on the pipe): every entry point hands the batch's whole metadata to the
+   resolver, so on EVERY route a download whose checksum differs from the one the pointer
+   carries is refused and never reaches the handler.  ([spec_holds_on_model] covers [Route]
+   inputs: whatever a handler is given is a data batch of the verified download.) *)
+Theorem route_checksum_mismatch_refused : forall t rt v p m srv x u w h,
+  is_pointer (b_rows p) m = true -> mget m c30_k_location = Some (x :: u) ->
+  url_ok v (x :: u) = true -> sfetch srv (x :: u) = Some w ->
+  mget m c30_k_sha = Some h -> ssha t w <> h ->
+  model (Route t rt v p m srv) = ORoute (RErr ESha).
+Proof. exact route_checksum_lemma. Qed.
+
 (* ---- 7. overlapped externalizations: each one owns its bytes ------------------------ *)
 (* Externalization k = serialize batch k, hash, (zstd) compress, upload (the storage copies
    what it is handed when the step runs).  For EVERY number of externalizations in flight and
